@@ -5,7 +5,7 @@ from harness import edits as E, obs, proj
 from harness.tlc import from_atoms
 from harness.props import c05
 
-EMPTYING = ('args_pop', 'args_clear', 'args_slice', 'args_remove')
+EMPTYING = ('args_pop', 'args_clear', 'args_slice', 'args_remove', 'args_del', 'args_delslice')
 TABLE_NAMES = {'newcommand', 'renewcommand', 'providecommand', 'lstlisting', 'verbatim', 'verbatimtab', 'Verbatim', 'listing',
                'align', 'align*', 'alignat', 'array', 'displaymath', 'eqnarray', 'eqnarray*', 'equation', 'equation*', 'flalign',
                'flalign*', 'gather', 'gather*', 'math', 'multline', 'multline*', 'split', 'itemize'}
@@ -23,6 +23,8 @@ def reparse_check(rec):
     e = E.expr_at(soup.expr, op['path'])
     if op['k'] == 'rename' and (old in FIXED_SIGNATURE or old in TABLE_NAMES or old.startswith(('left', 'right', 'big', 'Big'))):
         return None             # the old name had a special meaning to the parser (definition, math / verbatim environment ...)
+    if op['k'] in ('args_append', 'args_set') and from_atoms(op['s']) == '{{':
+        return None             # the new argument's content '{z}' is stored as unparsed text: the re-parse reads it as a nested group
     if op['k'] in EMPTYING and len(e.args) == 0:
         return None             # a command that lost all arguments may merge with what follows: not a "same change" case
     if op['k'].startswith('args_') and (str(e.name) in FIXED_SIGNATURE or str(e.name).startswith(('left', 'right', 'big', 'Big'))):
